@@ -80,6 +80,8 @@ pub struct HuffmanBlobStore<S: BlobStore> {
     training_data: Vec<u8>,
     encoder: Option<HuffmanEncoder>,
     tree: Option<HuffmanTree>,
+    /// Records stored in encoded form: id -> original length (needed to decode)
+    encoded_len: std::collections::HashMap<crate::RecordId, usize>,
 }
 
 impl<S: BlobStore> HuffmanBlobStore<S> {
@@ -91,6 +93,7 @@ impl<S: BlobStore> HuffmanBlobStore<S> {
             training_data: Vec::new(),
             encoder: None,
             tree: None,
+            encoded_len: std::collections::HashMap::new(),
         }
     }
 
@@ -162,8 +165,18 @@ impl<S: BlobStore> HuffmanBlobStore<S> {
 
 impl<S: BlobStore> BlobStore for HuffmanBlobStore<S> {
     fn get(&self, id: crate::RecordId) -> Result<Vec<u8>> {
-        // For now, delegate to inner store (would need metadata for decompression)
-        self.inner.get(id)
+        let stored = self.inner.get(id)?;
+        match self.encoded_len.get(&id) {
+            // stored in encoded form by put(): decode with the tree the encoder was built from
+            Some(&original_length) => {
+                let tree = self
+                    .tree
+                    .as_ref()
+                    .ok_or_else(|| ZiporaError::invalid_data("Huffman tree not built"))?;
+                HuffmanDecoder::new(tree.clone()).decode(&stored, original_length)
+            }
+            None => Ok(stored),
+        }
     }
 
     fn put(&mut self, data: &[u8]) -> Result<crate::RecordId> {
@@ -171,6 +184,7 @@ impl<S: BlobStore> BlobStore for HuffmanBlobStore<S> {
             match self.compress_data(data) {
                 Ok(compressed) => {
                     let id = self.inner.put(&compressed)?;
+                    self.encoded_len.insert(id, data.len());
                     self.stats.blob_stats.put_count += 1;
                     Ok(id)
                 }
@@ -185,7 +199,9 @@ impl<S: BlobStore> BlobStore for HuffmanBlobStore<S> {
     }
 
     fn remove(&mut self, id: crate::RecordId) -> Result<()> {
-        self.inner.remove(id)
+        self.inner.remove(id)?;
+        self.encoded_len.remove(&id);
+        Ok(())
     }
 
     fn contains(&self, id: crate::RecordId) -> bool {
@@ -193,7 +209,10 @@ impl<S: BlobStore> BlobStore for HuffmanBlobStore<S> {
     }
 
     fn size(&self, id: crate::RecordId) -> Result<Option<usize>> {
-        self.inner.size(id)
+        match (self.inner.size(id)?, self.encoded_len.get(&id)) {
+            (Some(_), Some(&original_length)) => Ok(Some(original_length)),
+            (stored, _) => Ok(stored),
+        }
     }
 
     fn len(&self) -> usize {
